@@ -30,13 +30,18 @@ def one_run(ctx, lc, tid, seq, req, nflat, flatcrit_milli, conv_j, seed, budget,
     nbins, mn10, mx10 = req
     # the threshold lies strictly between two values of the f schedule (ln f = 2^-k): on a schedule value the code's
     # float comparison f > convergence is a tie that may go either way
-    conv = math.exp(1.4 / 2 ** conv_j)
-    kmax = conv_j + 1
+    # conv_j = "default": the library's own default threshold exp(1e-6), reached after 20 flat iterations (2^-20 < 1e-6 < 2^-19)
+    default_conv = conv_j == "default"
+    conv = math.exp(1.4 / 2 ** conv_j) if not default_conv else None
+    kmax = conv_j + 1 if not default_conv else 21
     rec = rngshim.Recorder(seed, budget=budget)
     del wl._VERIF_EVENTS[:]
     with rngshim.installed(lc, rec):
         def go():
-            m = wl.WangLandauMachine(seq, outdir, set(), nbins, mn10 / 10.0, mx10 / 10.0, nflat, flatcrit_milli / 1000.0, conv)
+            if default_conv:
+                m = wl.WangLandauMachine(seq, outdir, set(), nbins, mn10 / 10.0, mx10 / 10.0, nflat, flatcrit_milli / 1000.0)
+            else:
+                m = wl.WangLandauMachine(seq, outdir, set(), nbins, mn10 / 10.0, mx10 / 10.0, nflat, flatcrit_milli / 1000.0, conv)
             return m.run()
         out = common.call(go, limit=600)
     events = list(wl._VERIF_EVENTS)
@@ -44,7 +49,7 @@ def one_run(ctx, lc, tid, seq, req, nflat, flatcrit_milli, conv_j, seed, budget,
     log = rec.take()
     ctx.evaluations += 1
     case = {"seq": seq, "nbins": nbins, "binmin": mn10 / 10.0, "binmax": mx10 / 10.0, "nflat": nflat, "flatcrit": flatcrit_milli / 1000.0,
-            "convergence": "exp(1.4/%d)" % 2 ** conv_j, "seed": seed}
+            "convergence": ("exp(1.4/%d)" % 2 ** conv_j) if not default_conv else "default", "seed": seed}
     budget_hit = out[0] == "exc" and out[1] == "TapeExhausted"
     if out[0] == "timeout":
         ctx.violation("run-does-not-terminate", case)
@@ -184,6 +189,17 @@ def run(ctx):
                      reuse_dir=(i % 5 == 1), keep_dir=(i % 5 == 0))
         if tr:
             trs.append(tr)
+    # the library's default convergence threshold (20 flat iterations) on a small problem
+    tr = one_run(ctx, lc, len(trs) + 1 + 100, ctx.rng.choice(SEQS[:3]), (2, 0, 10), 20, 300, "default", ctx.seed * 100 + 77, budget=ctx.pick(60000, 200000))
+    if tr:
+        if not tr["finished"]:
+            ctx.notes.append("the default-threshold run did not finish within the draw budget")
+        trs.append(tr)
+    # a chain of more than 1000 residues (few steps: every proposal's kappa is re-derived by TLC)
+    longseq = "".join(ctx.rng.choices("KEDRGSPQNT", k=ctx.rng.randint(1001, 1060)))
+    tr = one_run(ctx, lc, len(trs) + 1 + 100, longseq, (10, 0, 10), 25, 500, 3, ctx.seed * 100 + 78, budget=ctx.pick(500, 2500))
+    if tr:
+        trs.append(tr)
     cases = {t["tid"]: (t.pop("case"), t.pop("finished")) for t in trs}
     verdicts, _ = traces.validate(ctx, "Trace_WL", trs, spec="TSpec", invariants=["RunInvariants"], timeout=7200)
     fin = 0
@@ -213,7 +229,7 @@ def replay(ctx, rec):
     c = rec["case"]
     print("re-running", {k: c[k] for k in c if k not in ("event",)})
     mn10, mx10 = round(c["binmin"] * 10), round(c["binmax"] * 10)
-    cj = int(math.log2(int(c["convergence"].split("/")[1].rstrip(")"))))
+    cj = "default" if c["convergence"] == "default" else int(math.log2(int(c["convergence"].split("/")[1].rstrip(")"))))
     tr = one_run(ctx, lc, 1, c["seq"], (c["nbins"], mn10, mx10), c["nflat"], round(c["flatcrit"] * 1000), cj, c["seed"], 60000)
     if tr:
         case = tr.pop("case"); tr.pop("finished")
